@@ -184,7 +184,7 @@ def run(tier):
     chk = C.Check(PID, tier, 'fault_enumeration')
     chk.assumptions = [
         'fault sites = every comma separated field of every option of four base command lines replaced by each of '
-        '(empty, x, 0, -1, 1e300, nan, inf, 1e-300, 99), arity changes, options given twice or omitted, and a list of '
+        '(empty, x, 0, -1, 1e300, nan, inf, 1e-300, 99, 1e29, -1e29, 1e-29, 1_0, 1e, 0.5), arity changes, options given twice or omitted, and a list of '
         'contradictory / degenerate combinations (harness/cmdline_sites.py)',
         'TLC 1.8 on spec/Cmdline.tla with the site table spec/cmdline_table.json (stage and outcome kind per site)',
         'main() is run in-process with stdout/stderr captured; numpy warnings are not diagnostics']
